@@ -93,8 +93,7 @@ theorem confirmId_some (c : Cfg) (s : State) (sid : Nat) (id : String) (now : In
           | some w => { s1 with freq := expire (updateWord s1.freq sess.ctx w now) now c.expiryMs }
           | none => s1
         match withAffix cand.chain with
-        | some (word, reading) =>
-          { s2 with userDict := s2.userDict ++ [⟨word, reading, .noun .common⟩], pending := s2.pending ++ [⟨word, reading, .noun .common⟩] }
+        | some (word, reading) => { s2 with pending := s2.pending ++ [⟨word, reading, .noun .common⟩] }
         | none => s2 := by
   unfold confirmId confirm popSession foundCand
   simp only [hs, Option.bind_some]
